@@ -7,6 +7,7 @@ import Guard.Model.Merge
 import Guard.Model.TestReport
 import Guard.Model.Rulegen
 import Lean.Data.Json
+import Guard.Model.WF
 /-
   guard_model — line-protocol driver for the executable model.
   One JSON request per stdin line, one JSON response per stdout line.
@@ -349,14 +350,15 @@ def handle (j : Json) : Json :=
     let file := parseRulesFile (jfield j "ast")
     let doc := parsePV (jfield j "doc")
     let fuel := let f := jnat (jfield j "fuel"); if f == 0 then 100000 else f
+    let wf := Json.bool file.wf
     match runFile env fuel file doc with
     | .ok (s, t) =>
-      Json.mkObj [("id", id), ("status", Json.str s.toStr),
+      Json.mkObj [("id", id), ("wf", wf), ("status", Json.str s.toStr),
         ("rules", Json.arr ((ruleStatuses t).map fun (n, s) => Json.arr #[sOf n, Json.str s.toStr]).toArray),
         ("tree", recJson t)]
-    | .err e => Json.mkObj [("id", id), ("err", Json.str e.toStr)]
-    | .panic s => Json.mkObj [("id", id), ("panic", Json.str (siteName s))]
-    | .outOfFuel => Json.mkObj [("id", id), ("outOfFuel", true)]
+    | .err e => Json.mkObj [("id", id), ("wf", wf), ("err", Json.str e.toStr)]
+    | .panic s => Json.mkObj [("id", id), ("wf", wf), ("panic", Json.str (siteName s))]
+    | .outOfFuel => Json.mkObj [("id", id), ("wf", wf), ("outOfFuel", true)]
   | "spec" =>
     let env := mkEnv (jfield j "env")
     let file := parseRulesFile (jfield j "ast")
